@@ -32,6 +32,8 @@ def run_property(prop: str, tier: str, repo_root: str, evidence_dir: str, known_
         return 2
     try:
         mod.check(ck)
+        from .rules import shared
+        shared.run(ck)
         if tier == "thorough" and selftest:
             from .selftest import runner
             runner.run_for_property(ck, repo_root)
